@@ -18,6 +18,7 @@ type Clause struct {
 	File  string
 	Line  int
 	Label string // optional clause label "name:" prefix
+	Scope string // axioms: stated only in functions whose name contains this text
 }
 
 // CallAssert is an obligation on the arguments the function passes to a named callee:
@@ -288,12 +289,20 @@ func (ss *SpecSet) ParseSpecFile(path, defaultPkg string) {
 				ss.Pure = append(ss.Pure, strings.Fields(rest)...)
 			}
 		case "axiom", "lemma":
-			label := ""
-			if i := strings.Index(rest, ":"); i > 0 && isIdentLike(rest[:i]) && !strings.HasPrefix(rest[i:], "::") {
-				label = rest[:i]
-				rest = strings.TrimSpace(rest[i+1:])
+			label, scope := "", ""
+			if i := strings.Index(rest, ":"); i > 0 && !strings.HasPrefix(rest[i:], "::") {
+				head := strings.Fields(rest[:i])
+				// "name:" or "name for <substring of the function's name>:" - a scoped axiom is the definition of an abstract
+				// view for ONE implementation and is stated only where that implementation is verified
+				if len(head) == 1 && isIdentLike(head[0]) {
+					label = head[0]
+					rest = strings.TrimSpace(rest[i+1:])
+				} else if len(head) == 3 && isIdentLike(head[0]) && head[1] == "for" {
+					label, scope = head[0], head[2]
+					rest = strings.TrimSpace(rest[i+1:])
+				}
 			}
-			cl := &Clause{Kind: kw, Text: rest, Expr: parse(l, rest), File: path, Line: l.no, Label: label}
+			cl := &Clause{Kind: kw, Text: rest, Expr: parse(l, rest), File: path, Line: l.no, Label: label, Scope: scope}
 			ss.Axioms = append(ss.Axioms, cl)
 			ss.AxiomPkg[cl] = pkg
 		default:
